@@ -195,9 +195,16 @@ func (info *Info) Encode() (hheaData []byte, hmtxData []byte) {
 			if ext.IsZero() {
 				continue
 			}
-			rsb := info.Widths[i] - ext.URx
-			if first || rsb < hhea.MinRightSideBearing {
-				hhea.MinRightSideBearing = rsb
+			// The difference may not fit into 16 bits (wide advance,
+			// negative xMax); compute it without wrap-around.
+			rsb := int(info.Widths[i]) - int(ext.URx)
+			if rsb > math.MaxInt16 {
+				rsb = math.MaxInt16
+			} else if rsb < math.MinInt16 {
+				rsb = math.MinInt16
+			}
+			if first || funit.Int16(rsb) < hhea.MinRightSideBearing {
+				hhea.MinRightSideBearing = funit.Int16(rsb)
 			}
 			first = false
 		}
